@@ -225,7 +225,7 @@ class Ctx:
         e = dict(os.environ)
         # the tlc wrapper takes 25% of RAM as heap; several checks run side by side
         if "JAVA_TOOL_OPTIONS" not in e:
-            e["JAVA_TOOL_OPTIONS"] = "-Xmx%s" % (heap or ("6g" if self.quick else "12g"))
+            e["JAVA_TOOL_OPTIONS"] = "-Xss512m -Xmx%s" % (heap or ("6g" if self.quick else "12g"))
         if env:
             e.update(env)
         t = time.time()
@@ -258,7 +258,7 @@ class Ctx:
         if deque:
             # depth-first queue: a trace specification with silent steps follows the trace instead of
             # exploring breadth-first around it
-            env = {"JAVA_TOOL_OPTIONS": "-Xmx%s -Dtlc2.tool.queue.IStateQueue=StateDeque" % ("6g" if self.quick else "12g")}
+            env = {"JAVA_TOOL_OPTIONS": "-Xss512m -Xmx%s -Dtlc2.tool.queue.IStateQueue=StateDeque" % ("6g" if self.quick else "12g")}
         r = self.tlc(module, cfg, workers=1, timeout=timeout, expect_ok=False, label="trace", env=env)
         m = re.search(r"TRACE hwm=(\d+) len=(\d+)", r.out)
         if not m:
